@@ -29,13 +29,17 @@ abbrev ModName := List Str
 def allName : Str := ['_', '_', 'a', 'l', 'l', '_', '_']
 def star : Str := ['*']
 
-/-- An assignment target.  `pattern` is a tuple / list / starred target, flattened
-    by the harness to the names it binds (nested patterns included); `other` is an
-    attribute or subscript target (binds no module-level name). -/
+/-- An assignment target.  `pattern` is a tuple / list / starred target, flattened by the
+    harness (nested patterns included) into `bound`, the `ast.Name`s in **Store** context (the
+    names the target binds), and `loads`, every `ast.Name` that occurs in **Load** context inside
+    it (bases and indices of attribute / subscript elements: `os` and `k` in `os.environ[k], a = …`).
+    `other` is an attribute or subscript target (binds no module-level name) with the
+    Load-context names it mentions.  The code (`_target_names`: Name / Tuple / List / Starred
+    only) and therefore the model look at Store-context names only. -/
 inductive Target where
   | name (n : Str)
-  | pattern (bound : List Str)
-  | other
+  | pattern (bound : List Str) (loads : List Str)
+  | other (loads : List Str)
 deriving DecidableEq, Repr
 
 /-- One element of `list(ast.literal_eval(value))`. -/
@@ -70,16 +74,21 @@ inductive Item where
   | asyncFuncDef (n : Str)
   | importFrom (level : Nat) (module : Option ModName) (aliases : List Alias)
   | import_ (aliases : List (ModName × Option Str))
+  /-- `del t1, t2, …`: `names` are the targets that are plain `ast.Name`s (what the code looks at),
+      `nested` the names deleted through a parenthesised tuple / list target (`del (a, b)`), which
+      the code does not see; attribute / subscript targets are dropped. -/
+  | del (names : List Str) (nested : List Str)
   | other
 deriving DecidableEq, Repr
 
 structure Variant where
   d8 : Bool     -- fixes/C19-D8.diff: async def, annotated and tuple/list targets are members
   d31 : Bool    -- fixes/C19-D31.diff: the submodule test looks at the imported name, not at the alias
+  d53 : Bool    -- commit 499e9c3: `del name` at top level removes the name from the members collected so far
 deriving DecidableEq, Repr
 
-def Variant.current : Variant := ⟨false, false⟩
-def Variant.fixed : Variant := ⟨true, true⟩
+def Variant.current : Variant := ⟨false, false, false⟩
+def Variant.fixed : Variant := ⟨true, true, true⟩
 
 structure Env where
   self : ModName
@@ -97,8 +106,8 @@ deriving DecidableEq, Repr
     `[t.id for t in x.targets if isinstance(t, ast.Name)]`. -/
 def targetMembers (v : Variant) : Target → List Str
   | .name n => [n]
-  | .pattern b => if v.d8 then b else []
-  | .other => []
+  | .pattern b _ => if v.d8 then b else []
+  | .other _ => []
 
 def memberFromNode (v : Variant) : Item → List Str
   | .assign ts _ => ts.flatMap (targetMembers v)
@@ -108,7 +117,20 @@ def memberFromNode (v : Variant) : Item → List Str
   | .asyncFuncDef n => if v.d8 then [n] else []
   | _ => []
 
-def members (v : Variant) (items : List Item) : List Str := items.flatMap (memberFromNode v)
+/-- One pass over the top-level statements, in order, keeping the names that are "live":
+    each statement first removes the names `d it` and then adds the names `f it`. -/
+def live (f d : Item → List Str) (items : List Item) : List Str :=
+  items.foldl (fun acc it => acc.filter (fun n => !(d it).contains n) ++ f it) []
+
+/-- `deleted = set(t.id for t in n.targets if isinstance(t, ast.Name))` of an `ast.Delete`
+    (before commit 499e9c3 `del` statements were ignored). -/
+def delSeen (v : Variant) : Item → List Str
+  | .del ns _ => if v.d53 then ns else []
+  | _ => []
+
+/-- The loop `for n in ast_mod: if isinstance(n, ast.Delete): members = [m for m in members if m
+    not in deleted] else: members.extend(self._member_from_node(n))`. -/
+def members (v : Variant) (items : List Item) : List Str := live (memberFromNode v) (delSeen v) items
 
 /-! ### reconstruction of `__all__` -/
 
@@ -221,8 +243,8 @@ def exports (v : Variant) (env : Env) (items : List Item) : Except Err (List Str
 
 def targetBinds : Target → List Str
   | .name n => [n]
-  | .pattern b => b
-  | .other => []
+  | .pattern b _ => b
+  | .other _ => []
 
 /-- Names bound by executing one item (assuming it does not raise).  `other` items
     (compound statements, expressions, `del`, …) are outside the model. -/
@@ -235,9 +257,16 @@ def itemBinds : Item → List Str
   | .asyncFuncDef n => [n]
   | .importFrom _ _ aliases => (aliases.filter (fun a => a.name != star)).map Alias.bound
   | .import_ aliases => aliases.map fun (m, a) => a.getD (m.headD [])
+  | .del _ _ => []
   | .other => []
 
-def bound (items : List Item) : List Str := items.flatMap itemBinds
+/-- every name a `del` statement unbinds -/
+def delAll : Item → List Str
+  | .del ns nested => ns ++ nested
+  | _ => []
+
+/-- Names bound after straight-line execution of the items, in order (`del` unbinds). -/
+def bound (items : List Item) : List Str := live itemBinds delAll items
 
 /-- Names bound at top level by `def` / `async def` / `class` / (annotated, tuple) assignment:
     the property's "public top-level functions, classes and assigned names" before the
@@ -249,9 +278,17 @@ def defBinds : Item → List Str
 
 def defNames (items : List Item) : List Str := items.flatMap defBinds
 
+/-- … of which those that no later `del` removed. -/
+def liveDefs (items : List Item) : List Str := live defBinds delAll items
+
+/-- every `del` of the module is one the code sees in full: D53 fixed and no parenthesised
+    `del (a, b)` — or there is no `del` of a name at all -/
+def delsSeen (v : Variant) (items : List Item) : Bool :=
+  items.all fun it => (delAll it).all fun n => (delSeen v it).contains n
+
 /-- No statement of a form the unfixed `_member_from_node` misses (D8). -/
 def noD8Form : Item → Bool
-  | .assign ts _ => ts.all fun t => match t with | .pattern b => b.isEmpty | _ => true
+  | .assign ts _ => ts.all fun t => match t with | .pattern b _ => b.isEmpty | _ => true
   | .annAssign t hv _ => !hv || (targetBinds t).isEmpty
   | .asyncFuncDef _ => false
   | _ => true
